@@ -34,7 +34,7 @@ ASSUMPTIONS = [
     "data sets of at most 25 rows per construction; d <= 4",
 ]
 BOUNDS = {
-    "quick": "d=2: 11 spec pairs, full grid in chunks + ordered tuples L=2 over thin grid; d=3: 2 spec triples, full grid chunks + L=1",
+    "quick": "d=2: 13 spec pairs, full grid in chunks + ordered tuples L=2 over thin grid; d=3: 2 spec triples, full grid chunks + L=1",
     "thorough": "adds L=3 (d=2, thin grid), L=2 (d=3), d=4 chunks + L=1, seeded bin sets",
 }
 BUDGET = {"quick": 240, "thorough": 3000}
@@ -50,6 +50,8 @@ PAIRS = {
     "neg": A.pairs_from_edges([-2, -1, 0.5]),
     # a gap far below the tolerance of is_consecutive(): still a gap
     "tinygap": [(0.0, 1.0), (1.0 + 2.0 ** -20, 2.0)],
+    # fixed-width grid with an inexact width that does not start at grid index 0 (edges (5+i)*0.1: 0.7000000000000001 ...)
+    "tenth": [((5 + i) * 0.1, (6 + i) * 0.1) for i in range(4)],
 }
 
 # name -> (pairs name, kind, right)
@@ -70,6 +72,7 @@ AXSPECS = {
     "F_reg": ("regular", "FixedWidth", False),
     "S_tiny_r": ("tinygap", "Static", True),
     "S_tiny_o": ("tinygap", "Static", False),
+    "F_tenth": ("tenth", "FixedWidth10", False),
 }
 
 CONFIGS2 = [
@@ -85,6 +88,8 @@ CONFIGS2 = [
     ["S_two_o", "S_two_r"],
     ["S_tiny_r", "S_one_o"],
     ["N_two_r", "S_tiny_o"],
+    ["F_tenth", "S_two_r"],
+    ["S_one_o", "F_tenth"],
 ]
 CONFIGS3 = [
     ["S_two_r", "S_one_o", "S_three_o"],
@@ -122,6 +127,8 @@ def build_axis(name):
         return np.array(edges)
     if kind == "pairs_array":
         return np.array(pairs)
+    if kind == "FixedWidth10":
+        return FixedWidthBinning(bin_width=0.1, bin_count=len(pairs), bin_times_min=5)
     if kind == "FixedWidth":
         w = pairs[0][1] - pairs[0][0]
         return FixedWidthBinning(bin_width=w, bin_count=len(pairs), bin_times_min=int(round(pairs[0][0] / w)))
